@@ -31,7 +31,7 @@ package measurement
 // recognised(ut, u): spelling u names a unit of this family, as it stands (lower-cased) or after dropping a plural s.
 //@ spec macro func recognised(ut UnitType, unit string) bool = known(ut, lower(unit)) || known(ut, normunit(unit))
 // denotes(ut, i, u): unit i of the family is one the spelling u can denote (exact spelling first).
-//@ spec macro func denotes(ut UnitType, i int, unit string) bool = ite(known(ut, lower(unit)), isalias(ut, i, lower(unit)), isalias(ut, i, normunit(unit)))
+//@ spec macro func denotes(ut UnitType, i int, unit string) bool = (known(ut, lower(unit)) && isalias(ut, i, lower(unit))) || (!known(ut, lower(unit)) && isalias(ut, i, normunit(unit)))
 //@ func UnitType.sniffUnit arith bv
 //@   ensures alias_recognised: known(ut, lower(unit)) ==> result != nil
 //@   ensures unknown: result == nil <==> !recognised(ut, unit)
@@ -65,7 +65,12 @@ package measurement
 //@         && same(result0, float64(value) * ut.Units[i].Factor / ut.Units[k].Factor) && result1 == ut.Units[k].CanonicalName
 //@   ensures fallback: result2 && toUnitStr != "minimum" && toUnitStr != "auto" && !recognised(ut, toUnitStr) ==>
 //@       result1 == ut.DefaultUnit.CanonicalName
-//@         && exists i int :: 0 <= i && i < len(ut.Units) && denotes(ut, i, fromUnitStr)
+//@         && same(result0, float64(value) * callres("UnitType.sniffUnit#1", 0).Factor / ut.DefaultUnit.Factor)
+//@   ensures explicit: result2 && toUnitStr != "minimum" && toUnitStr != "auto" && recognised(ut, toUnitStr) ==>
+//@       result1 == callres("UnitType.sniffUnit#2", 0).CanonicalName
+//@         && same(result0, float64(value) * callres("UnitType.sniffUnit#1", 0).Factor / callres("UnitType.sniffUnit#2", 0).Factor)
+//@   ensures slow_fallback_denotes: result2 && toUnitStr != "minimum" && toUnitStr != "auto" && !recognised(ut, toUnitStr) ==>
+//@       exists i int :: 0 <= i && i < len(ut.Units) && denotes(ut, i, fromUnitStr)
 //@              && same(result0, float64(value) * ut.Units[i].Factor / ut.DefaultUnit.Factor)
 //@   ensures auto: result2 && (toUnitStr == "minimum" || toUnitStr == "auto") ==>
 //@       result1 == ut.DefaultUnit.CanonicalName || exists k int :: 0 <= k && k < len(ut.Units) && result1 == ut.Units[k].CanonicalName
